@@ -56,43 +56,53 @@ class Branch:
 
 
 class BuilderNF:
+    """transform_node analysed once per grammar rule: the node's rule_type is fixed to each AST rule name in turn, so the
+    dispatch (if-chain, dict of handlers, per-rule methods ...) folds away and what remains is that rule's transformation."""
+
     def __init__(self) -> None:
         self.I = I = new_interp()
         self.fi = I.facts.func(f"{BQ}.transform_node")
         p = self.fi.params()
         self.selft = ("param", p[0])
         self.node = ("param", p[1])
-        self.tree, self.rv, _ = I.run(f"{BQ}.transform_node")
         self.memo: dict = {}
         self.branches: dict[str, Branch] = {}
-        self.default_returns_node = False
-        self._split()
+        self.tree: list = []
+        g = grammar()
+        rt = (self.node, "rule_type")
+        # the default: an unknown rule type is passed through
+        t0, rv0, _ = I.run(f"{BQ}.transform_node", ext={rt: const("<any other rule>")})
+        self.default_returns_node = rv0 == self.node
+        self.rv = rv0
+        for r in [x for x in g.order if g.rules[x].ast]:
+            tree, rv, _ = I.run(f"{BQ}.transform_node", ext={rt: const(r)})
+            if rv == self.node and not [n for n in tree if n[0] not in ("alloc", "return", "if")]:
+                continue            # passed through: no transformation for this rule
+            line = None
+            for n, ctx in nf.iter_nodes(tree):
+                for x in reversed(n):
+                    if isinstance(x, int) and not isinstance(x, bool):
+                        line = x
+                        break
+                if line:
+                    break
+            b = Branch(r, tree, line or self.fi.node.lineno)
+            def alts(t, gs):
+                if t[0] == "cond":
+                    return alts(t[2], gs + [nf.norm_guard(t[1], True)]) + alts(t[3], gs + [nf.norm_guard(t[1], False)])
+                return [(t, gs)]
+            for n, ctx in nf.iter_nodes(tree):
+                if n[0] == "return" and not any(x[0] == "call" for x in ctx):
+                    for v, gs in alts(n[1], nf.guards_in_ctx(ctx)):
+                        b.returns.append((v, n[2], gs))
+            if not b.returns and rv != NONE:
+                for v, gs in alts(rv, []):
+                    b.returns.append((v, b.line, gs))
+            self.branches[r] = b
+            self.tree.extend(tree)
 
     def c(self, t):
         return canon(t, self.memo)
-
-    def _split(self) -> None:
-        rt = ("attr", self.node, "rule_type")
-        cur = [n for n in self.tree if n[0] != "alloc"]
-        while cur:
-            ifs = [n for n in cur if n[0] == "if"]
-            if len(ifs) != 1:
-                break
-            n = ifs[0]
-            c = n[1]
-            if c[0] == "cmp" and c[1] == "Eq" and c[2] == rt and is_const(c[3]):
-                b = Branch(c[3][1], n[2], n[4])
-                self.branches[b.rule] = b
-                cur = n[3]
-                continue
-            break
-        # what remains is the default branch
-        rets = [n for n in cur if n[0] == "return"]
-        self.default_returns_node = bool(rets) and rets[-1][1] == self.node
-        for b in self.branches.values():
-            for n, ctx in nf.iter_nodes(b.tree):
-                if n[0] == "return" and not any(x[0] == "call" for x in ctx):
-                    b.returns.append((n[1], n[2], nf.guards_in_ctx(ctx)))
 
     # -- deep term collection ---------------------------------------------------------------
     def deep_terms(self, t, seen=None):
@@ -737,8 +747,8 @@ def rule_ids(rep: Report, rid_order="C11.order", rid_src="C11.src") -> None:
         if fi is None:
             continue
         for n in _ast.walk(fi.node):
-            if isinstance(n, _ast.Call) and isinstance(n.func, _ast.Attribute) and isinstance(n.func.value, _ast.Name) and n.func.value.id in ("self", "cls"):
-                work.append(n.func.attr)
+            if isinstance(n, _ast.Attribute) and isinstance(n.value, _ast.Name) and n.value.id in ("self", "cls") and isinstance(n.ctx, _ast.Load):
+                work.append(n.attr)
     for c in cls.mro():
         for fi in c.methods.values():
             has = any(isinstance(n, _ast.Attribute) and n.attr == "get_next_id" for n in _ast.walk(fi.node))
